@@ -208,8 +208,14 @@ func runIsolation(r *simkit.Run) {
 
 	w := &isoWorld{r: r, db: db, wl: wl, aborted: map[int]bool{}, bucket: []byte("iso"), storeAt: map[int]int{}}
 	nk := simkit.Range(c, 2, 5, "iso-keys")
+	if c.Bool(350, "iso-many-keys") {
+		// a cache treap deep enough for deletions that rotate a node down
+		// through several levels while readers still hold the old root
+		nk = simkit.Range(c, 12, 60, "iso-key-count")
+		r.Sig("iso-many")
+	}
 	for j := 0; j < nk; j++ {
-		w.keys = append(w.keys, fmt.Sprintf("k%d", j))
+		w.keys = append(w.keys, fmt.Sprintf("k%02d", j))
 	}
 	w.nVers = simkit.Range(c, 2, 8, "iso-versions")
 	nReaders := simkit.Range(c, 1, 3, "iso-readers")
